@@ -113,7 +113,7 @@ func (ws *waitset) earliest(t int64) int64 {
 	return t
 }
 
-func (ws *waitset) fireDue() {
+func (ws *waitset) fireDue() int {
 	now := PeekNS()
 	var due []*Deadline
 	for _, d := range ws.dl {
@@ -125,13 +125,15 @@ func (ws *waitset) fireDue() {
 		d.Remove()
 		d.fire()
 	}
+	return len(due)
 }
 
 // SleepUntil blocks the calling logical thread until the virtual clock has reached t or one of
 // its own deadlines, whichever is earlier, then fires the due deadlines. Without an active
 // scheduler (sequential engines) the clock simply jumps: nobody else could act in between.
 // A goroutine that is not a logical thread never wakes (background tickers are inert).
-func SleepUntil(t int64) {
+// It returns the number of deadlines fired.
+func SleepUntil(t int64) int {
 	if s := active; s != nil {
 		th := s.current()
 		if th == nil {
@@ -141,12 +143,11 @@ func SleepUntil(t int64) {
 		th.sleepUntil = eff
 		s.point(KSleep, 0, func() bool { return PeekNS() >= eff })
 		th.sleepUntil = 0
-		th.ws.fireDue()
-		return
+		return th.ws.fireDue()
 	}
 	eff := solo.earliest(t)
 	setAtLeast(eff)
-	solo.fireDue()
+	return solo.fireDue()
 }
 
 // ---- scheduler ----------------------------------------------------------------------------
